@@ -246,6 +246,9 @@ var currentProp string
 var c06Classes = map[string]bool{
 	"malformed-frame": true, "wrong-source-link-address": true, "wrong-link-address": true,
 	"wrong-source-address": true, "wrong-interface": true, "wrong-addressing": true, "panic": true,
+	// (neighbour scenario) what an ARP reply or neighbour advertisement says and whom it is addressed to:
+	// "addresses ... are those ... of the packet being answered"
+	"reply-wrong-addressee": true, "reply-wrong-content": true,
 }
 
 // keeps reports whether a violation of the given class counts under the property being decided.
